@@ -511,4 +511,101 @@ theorem seq_global_aux (r₀' : Registry) (progs : List (List Ev)) :
       rw [show k + (i + 1) = k + 1 + i by omega]
       exact this
 
+/-! ## sequential execution of programs that reset the cell before reading it -/
+
+/-- a program that writes the process-wide cell before its first lookup computes the same
+thread from any cell it finds -/
+theorem runEvents_global_thread_reset (es : List Ev) (t : Thread) (s s' : Shared)
+    (ho : opensWithReset es = true)
+    (hr : ∀ n ∈ freeGets es, regGet s.reg n = regGet s'.reg n) :
+    (runEvents .Global es t s).1 = (runEvents .Global es t s').1 := by
+  induction es generalizing t s s' with
+  | nil => rfl
+  | cons e rest ih =>
+    cases e with
+    | register n c =>
+      simp only [runEvents, exec]
+      apply ih
+      · simpa [opensWithReset] using ho
+      · intro n' hn'
+        simp only [regGet_regSet]
+        by_cases hnn : n = n'
+        · simp [hnn]
+        · simp only [hnn, if_false]
+          exact hr n' (by simp [freeGets, hn', Ne.symm hnn])
+    | getStrategy n =>
+      simp only [runEvents, exec]
+      rw [hr n (by simp [freeGets])]
+      apply ih
+      · simpa [opensWithReset] using ho
+      · intro n' hn'; exact hr n' (by simp [freeGets, hn'])
+    | setCtx p =>
+      simp only [runEvents, exec]
+      apply runEvents_global_thread
+      · rfl
+      · intro n' hn'; exact hr n' (by simpa [freeGets] using hn')
+    | lookup c => simp [opensWithReset] at ho
+    | clearCtx =>
+      simp only [runEvents, exec]
+      apply runEvents_global_thread
+      · rfl
+      · intro n' hn'; exact hr n' (by simpa [freeGets] using hn')
+    | emit v =>
+      simp only [runEvents, exec]
+      apply ih
+      · simpa [opensWithReset] using ho
+      · intro n' hn'; exact hr n' (by simpa [freeGets] using hn')
+
+/-- sequential execution in `Global` mode of programs that open with a reset: whatever the cell
+holds at the start and whatever the programs leave in it -/
+theorem seq_global_reset_aux (r₀' : Registry) (progs : List (List Ev)) :
+    ∀ (k : Nat) (σ : State),
+      (∀ j q, progs[j]? = some q → σ.threads[k + j]? = some (fresh q)) →
+      (∀ q ∈ progs, freeGets q = []) → (∀ q ∈ progs, opensWithReset q = true) →
+      ∀ i p, progs[i]? = some p →
+        outOf (run .Global (seqScheduleFrom k progs) σ) (k + i) = solo .Global r₀' p := by
+  induction progs with
+  | nil => intro k σ _ _ _ i p hp; simp at hp
+  | cons p0 ps ih =>
+    intro k σ hthr hfree hopen i p hp
+    have hk : σ.threads[k]? = some (fresh p0) := by simpa using hthr 0 p0 rfl
+    simp only [seqScheduleFrom, run_append]
+    rw [run_block .Global k p0 σ (fresh p0) hk rfl]
+    cases i with
+    | zero =>
+      simp only [List.getElem?_cons_zero, Option.some.injEq] at hp
+      subst hp
+      have hnot : k ∉ seqScheduleFrom (k + 1) ps := by
+        intro hmem
+        have := seqScheduleFrom_ge (k + 1) ps k hmem
+        omega
+      have hlt : k < σ.threads.length := by
+        rcases Nat.lt_or_ge k σ.threads.length with h' | h'
+        · exact h'
+        · simp [List.getElem?_eq_none h'] at hk
+      simp only [outOf, Nat.add_zero]
+      rw [run_frame .Global k _ _ hnot]
+      simp only [List.getElem?_set_self hlt]
+      rw [solo_eq_runEvents]
+      congr 1
+      apply runEvents_global_thread_reset
+      · exact hopen p0 (by simp)
+      · intro n hn; rw [hfree p0 (by simp)] at hn; simp at hn
+    | succ i =>
+      have := ih (k + 1)
+        { threads := σ.threads.set k (runEvents .Global p0 (fresh p0) σ.sh).1,
+          sh := (runEvents .Global p0 (fresh p0) σ.sh).2 }
+        (by
+          intro j q hq
+          have : k ≠ k + 1 + j := by omega
+          simp only [List.getElem?_set_ne this]
+          have h2 := hthr (j + 1) q (by simpa using hq)
+          rw [show k + 1 + j = k + (j + 1) by omega]
+          exact h2)
+        (fun q hq => hfree q (by simp [hq]))
+        (fun q hq => hopen q (by simp [hq]))
+        i p (by simpa using hp)
+      rw [show k + (i + 1) = k + 1 + i by omega]
+      exact this
+
 end Proofs.Interleave
